@@ -133,6 +133,7 @@ def fd_gradient(f, x0, scale):
     complex leaf the derivative w.r.t. the real and the imaginary part, combined as torch does:
     grad = dL/dRe + i dL/dIm)."""
     g = np.zeros(x0.shape, dtype=x0.dtype)
+    gerr = np.zeros(x0.shape, dtype=np.float64)
     it = np.nditer(x0, flags=["multi_index"])
     for _ in it:
         i = it.multi_index
@@ -144,10 +145,19 @@ def fd_gradient(f, x0, scale):
             xm[i] -= dirn * hh
             return (f(xp) - f(xm)) / (2 * hh)
 
-        def rich(dirn):
-            return (4 * d(dirn, h / 2) - d(dirn, h)) / 3
+        def rich(dirn, hh):
+            return (4 * d(dirn, hh / 2) - d(dirn, hh)) / 3
 
-        g[i] = rich(1.0) + (1j * rich(1j) if np.iscomplexobj(x0) else 0.0)
+        # two step sizes: their disagreement estimates the oracle's own truncation error (large when
+        # the entry sits next to a singularity of the loss, e.g. log|c| with c proportional to a
+        # parameter of size comparable to the step)
+        a1, a2 = rich(1.0, h), rich(1.0, h / 8)
+        g[i], gerr[i] = a2, abs(a1 - a2)
+        if np.iscomplexobj(x0):
+            b1, b2 = rich(1j, h), rich(1j, h / 8)
+            g[i] = a2 + 1j * b2
+            gerr[i] = abs(a1 - a2) + abs(b1 - b2)
+    fd_gradient.last_err = gerr
     return g
 
 
@@ -291,9 +301,15 @@ def run_case(case) -> Result:
                             want = np.real(fd)
                         gsc = scale * TOL["grad"]["rel"] * (1.0 if sr != "lse-sum" else 1.0 / max(1e-12, float(np.min(np.real(r0))))) + TOL["grad"]["abs"]
                         err = np.abs(got - want)
-                        bound = gsc * (1.0 + 0.0) + TOL["grad"]["rel"] * np.abs(want)
-                        res.count("grad_entries_compared", int(base.size))
-                        bad = ~(err <= bound)
+                        fd_err = fd_gradient.last_err
+                        bound = gsc * (1.0 + 0.0) + TOL["grad"]["rel"] * np.abs(want) + 4.0 * fd_err
+                        # entries on which the two finite-difference estimates disagree by more than 1%
+                        # are not decided by this oracle (the cross-flag comparison still covers them)
+                        undecided = fd_err > 0.01 * np.abs(want) + 10 * gsc
+                        res.count("grad_entries_compared", int(base.size - undecided.sum()))
+                        if undecided.any():
+                            res.count("fd_undecided_entries", int(undecided.sum()))
+                        bad = ~(err <= bound) & ~undecided
                         if bad.any() and sr != "sum-product" and np.all(base[bad] == 0):
                             # every mismatching entry is an exactly-zero parameter entry evaluated in
                             # a log-space semiring (log 0 = -inf): separate failure class
